@@ -885,6 +885,9 @@ func runC19d(args []string) error {
 				}
 				in := c19dRecInput{N: nv[0], StateRoot: r.bool(), View: nv[1], Victim: v, Lost: l, Txs: r.intn(3), After: 1 + r.intn(2)}
 				raw, _ := json.Marshal(in)
+				if len(co.direct) >= 8 {
+					continue // the tree is broken in this area: enough evidence, keep the run short
+				}
 				if err := c19dRunRecovery(co, raw); err != nil {
 					return err
 				}
@@ -1093,6 +1096,7 @@ func c19dRunRecovery(co *caseOut, raw json.RawMessage) error {
 		for _, nd := range net.nodes {
 			cursor[nd.i] = len(nd.sent) // what was sent at start (the dead primary's proposal) goes nowhere
 		}
+		seenRec := map[string]bool{}
 		// deliver everything new among the live validators until nothing new is sent
 		pump := func(allow func(from, to int, s c19dSent) bool, check bool) {
 			for iter := 0; iter < 200; iter++ {
@@ -1107,8 +1111,12 @@ func c19dRunRecovery(co *caseOut, raw json.RawMessage) error {
 							if to == from || !allow(from, to, s) {
 								continue
 							}
-							if s.typ == 5 && check {
+							if s.typ == 5 && check && !seenRec[string(s.raw)] {
+								seenRec[string(s.raw)] = true
 								net.checkRestore(net.node(to), s.raw, &impl)
+							}
+							if len(net.viol) > 0 {
+								return // one violation per case is enough; do not grind on
 							}
 							net.node(to).drv.Deliver(c19dExt(s.raw))
 						}
@@ -1217,7 +1225,7 @@ func c19dRunRecovery(co *caseOut, raw json.RawMessage) error {
 			return true
 		}
 		everything := func(from, to int, s c19dSent) bool { return true }
-		for impl.Rounds = 0; impl.Rounds < c19dMaxRounds && !decided(); {
+		for impl.Rounds = 0; impl.Rounds < c19dMaxRounds && !decided() && len(net.viol) == 0; {
 			impl.Rounds++
 			net.node(V).drv.Timeout()
 			pump(everything, true)
@@ -1235,6 +1243,9 @@ func c19dRunRecovery(co *caseOut, raw json.RawMessage) error {
 		}
 		impl.Decided = decided()
 		impl.FinalView = view(V)
+		if len(net.viol) > 0 {
+			return
+		}
 		if !impl.Decided {
 			var st []string
 			for _, i := range live {
